@@ -36,16 +36,25 @@ def main():
     if "--skip-demo" in args and os.path.exists(vfile):
         res.update(json.load(open(vfile)))
     if "--skip-demo" not in args:
-        run = meta["demo"]["run"]
+        run = meta["demo"]["run"].replace("<repo>", wt).replace("<worktree>", wt)
+        demo_dst = meta["demo"].get("path_in_repo", "").split()[0] if meta["demo"].get("path_in_repo") else ""
+        demo_src = [f for f in os.listdir(out) if f.endswith("_test.go") or f.endswith(".go")]
+        cwd = out if re.search(r"(^|&&|;)\s*cd ", run) else wt
+        def place():
+            if demo_dst and demo_dst.endswith(".go") and len(demo_src) == 1:
+                shutil.copy(os.path.join(out, demo_src[0]), os.path.join(wt, demo_dst))
+        wt_run = lambda: sh(run, cwd)
         sh("git checkout -q -- . && git clean -fdq", wt)
-        c0, o0 = sh(run, wt)
+        place()
+        c0, o0 = wt_run()
         res["demo_clean_exit"] = c0
         sh("git clean -fdq", wt)
         c, o = sh("git apply %s" % patch, wt)
         if c != 0:
             res["error"] = "patch does not apply to worktree: " + o[-300:]
             print(json.dumps(res)); return 1
-        c1, o1 = sh(run, wt)
+        place()
+        c1, o1 = wt_run()
         res["demo_patched_exit"] = c1
         res["demo_patched_tail"] = o1[-600:]
         sh("git clean -fdq", wt)
